@@ -486,6 +486,7 @@ impl Property for C14 {
                             }
                         }
                         w.layout.steps[0].expected_products = vec![
+                            RuleSpec::Match { pattern: "*".into(), in_src: None, products: false, in_dst: None, from: sname.clone() },
                             RuleSpec::Modify("*".into()),
                             RuleSpec::Match { pattern: "*".into(), in_src: Some(p.clone()), products: false, in_dst: Some(p.clone()), from: sname.clone() },
                             RuleSpec::Create(p.clone()),
